@@ -46,6 +46,7 @@ type Workload struct {
 	Compress     bool            `json:"compress"`
 	Purge        bool            `json:"purge"` // utxo.UTXO_PURGE_UNSPENDABLE, as a freshly configured client runs
 	SkipSave     uint32          `json:"skip_save_blocks"` // utxo.UTXO_SKIP_SAVE_BLOCKS (the client's UTXOSave.BlocksToHold, default 6)
+	UnwindBuf    uint32          `json:"unwind_buf"`       // UnspentDB.UnwindBufLen (0 = library default 2560): undo-file clean-up inside the plan's heights
 }
 
 type State struct {
@@ -139,6 +140,7 @@ func worker(wlFile, dir, journal string) {
 	}
 	chainsim.SetPurge(w.Purge)
 	utxo.UTXO_SKIP_SAVE_BLOCKS = w.SkipSave
+	chainsim.UnwindBufLen = w.UnwindBuf
 	utxo.UTXO_WRITING_TIME_TARGET = time.Duration(w.SaveTargetMs) * time.Millisecond
 	n := chainsim.OpenNode(dir, w.Params, chainsim.NodeOpts{BDB: bdbOpts(&w)})
 	jf, _ := os.OpenFile(journal, os.O_CREATE|os.O_WRONLY|os.O_APPEND, 0o644)
@@ -173,6 +175,7 @@ func reopen(wlFile, dir, mode, out string) {
 	json.Unmarshal(b, &w)
 	chainsim.SetPurge(w.Purge)
 	utxo.UTXO_SKIP_SAVE_BLOCKS = w.SkipSave
+	chainsim.UnwindBufLen = w.UnwindBuf
 	res := &ReopenResult{}
 	write := func() {
 		jb, _ := json.Marshal(res)
@@ -211,6 +214,7 @@ func reopenDump(wlFile, dir, mode, out string) {
 	json.Unmarshal(b, &w)
 	chainsim.SetPurge(w.Purge)
 	utxo.UTXO_SKIP_SAVE_BLOCKS = w.SkipSave
+	chainsim.UnwindBufLen = w.UnwindBuf
 	res := &ReopenResult{}
 	defer func() {
 		if r := recover(); r != nil {
@@ -287,7 +291,7 @@ func makePlan(seed int64, variant int) *plan {
 	ref := refchain.NewChain(p, func() int64 { return time.Now().Unix() })
 	g := chainsim.NewGen(r, p, ref)
 	pl := &plan{ref: ref}
-	pl.w = Workload{Seed: seed, Params: p, SaveTargetMs: []int{0, 300, 0, 150}[variant%4], Compress: variant%2 == 1, Purge: variant%3 == 1, SkipSave: []uint32{0, 0, 6, 0, 2}[variant%5]}
+	pl.w = Workload{Seed: seed, Params: p, SaveTargetMs: []int{0, 300, 0, 150}[variant%4], Compress: variant%2 == 1, Purge: variant%3 == 1, SkipSave: []uint32{0, 0, 6, 0, 2}[variant%5], UnwindBuf: []uint32{0, 101, 0, 104}[variant%4]}
 	if variant%4 == 3 {
 		pl.w.MaxDataFile = 40000 // data-file roll-over every few blocks
 	}
